@@ -6,10 +6,10 @@
 #include <stdarg.h>
 #include <stdio.h>
 #ifdef ABSTRACT_PIECES
-/* every vsnprintf call in the code under test goes to the contract stub below (same rename in the
- * CBMC and in the native replay build) */
-int vp_abs_vsnprintf(char *buf, size_t size, const char *fmt, va_list ap);
-#define vsnprintf vp_abs_vsnprintf
+/* the printers are checked against a CONTRACT version of hwloc_snprintf (defined below): the k-th piece
+ * "needs" an arbitrary number r_k of characters and is written with conforming truncation. On this
+ * platform configure found a C99 snprintf (HWLOC_HAVE_CORRECT_SNPRINTF), so hwloc_snprintf IS snprintf
+ * (private.h macro) and the workaround function of misc.c is not used by the library. */
 #endif
 #include "hwloc/bitmap.c"
 
@@ -32,7 +32,11 @@ static struct hwloc_bitmap_s *mk(unsigned maxw)
   VP_NONNULL(s->ulongs);
   s->ulongs_count = (unsigned) vp_in_range(1, maxw);
   s->ulongs_allocated = ALLOC;
-  for (unsigned i = 0; i < ALLOC; i++) s->ulongs[i] = i < maxw ? vp_in64() : 0xdeadbeefUL;
+  for (unsigned i = 0; i < ALLOC; i++) { s->ulongs[i] = i < maxw ? vp_in64() : 0xdeadbeefUL;
+#ifdef WMASK
+    if (i < maxw) VP_ASSUME((s->ulongs[i] & ~WMASK) == 0 || (s->ulongs[i] | WMASK) == ~0UL);   /* stated bound: explicit bits (or holes) inside WMASK */
+#endif
+  }
   s->infinite = vp_in_bool();
   return s;
 }
@@ -84,22 +88,13 @@ static int do_sscanf(struct hwloc_bitmap_s *b, const char *s)
 #define R 5
 #endif
 #define PIECES 12
-static unsigned char vp_r[PIECES]; static int vp_piece; static char *vp_userbuf; static size_t vp_userlen;
-static int vp_is_user(const char *p)
+static unsigned char vp_r[PIECES]; static int vp_piece;
+int hwloc_snprintf(char *buf, size_t size, const char *fmt, ...)
 {
-#ifdef VP_CBMC
-  return vp_userbuf && __CPROVER_same_object(p, vp_userbuf);
-#else
-  return vp_userbuf && p >= vp_userbuf && p <= vp_userbuf + CAP;
-#endif
-}
-int vp_abs_vsnprintf(char *buf, size_t size, const char *fmt, va_list ap)
-{
-  (void) fmt; (void) ap;
-  /* first call of a piece: destination is the user buffer, or hwloc_snprintf's 1-byte bin (size forced to 1) */
-  if (vp_is_user(buf) || size == 1) vp_piece++;
+  (void) fmt;
+  vp_piece++;
   VP_ASSUME(vp_piece >= 0 && vp_piece < PIECES);   /* stated bound: at most 12 pieces */
-  unsigned k = (unsigned) (vp_piece < PIECES ? vp_piece : 0), r = vp_r[k];
+  unsigned k = (unsigned) vp_piece, r = vp_r[k];
   for (unsigned j = 0; j < R; j++) if (j < r && size > 0 && j < size - 1) buf[j] = (char) ('A' + k);
   if (size > 0) buf[r < size - 1 ? r : size - 1] = 0;
   return (int) r;
@@ -117,10 +112,10 @@ VP_HARNESS(h_cursor_abstract)
   unsigned char canary = vp_in_byte();
   for (unsigned i = 0; i <= CAP; i++) { buf[i] = (char) canary; full[i] = 0; }
   VP_SYMBOLIC_PHASE(1);
-  vp_piece = -1; vp_userbuf = full; vp_userlen = CAP + 1;
+  vp_piece = -1;
   int n = do_snprintf(full, CAP + 1, a);
   VP_ASSUME(n >= 0 && n < CAP);       /* full texts longer than CAP-1 are outside this harness */
-  vp_piece = -1; vp_userbuf = buf; vp_userlen = len;
+  vp_piece = -1;
   int m = do_snprintf(len ? buf : NULL, len, a);
   VP_CHECK(m == n, "snprintf returns the length the untruncated text needs, for every buffer length");
   for (unsigned i = 0; i <= CAP; i++) if (i >= len) VP_CHECK(buf[i] == (char) canary, "snprintf never writes at or beyond buf+buflen");
@@ -129,8 +124,52 @@ VP_HARNESS(h_cursor_abstract)
     VP_CHECK(buf[end] == 0, "snprintf NUL-terminates whenever buflen > 0");
     for (unsigned i = 0; i < CAP; i++) if (i < end) VP_CHECK(buf[i] == full[i], "the truncated text is a prefix of the full text");
   }
-  VP_WITNESS_IF(n >= 12 && len >= 3 && len < (size_t) n && vp_r[2] == R, "a truncation in the middle of a later piece");
+  VP_WITNESS_IF(n >= 6 && len >= 3 && len < (size_t) n && vp_r[1] == R, "a truncation in the middle of a later piece");
   VP_WITNESS_IF(len == 0, "NULL buffer with length 0");
+}
+#elif defined(SNPRINTF_CONTRACT)
+/* ------------------------------------------------------------------------------------------------ */
+/* the real hwloc_snprintf (misc.c) against the snprintf contract, for a conforming vsnprintf and for the
+ * legacy ones it works around (returning size-1 or -1 on truncation) */
+#ifdef VP_CBMC
+static unsigned vp_need, vp_style;
+int vsnprintf(char *buf, size_t size, const char *fmt, va_list ap)
+{
+  (void) fmt; (void) ap;
+  unsigned r = vp_need;
+  for (unsigned j = 0; j < 24; j++) if (j < r && size > 0 && j < size - 1) buf[j] = (char) ('a' + j);
+  if (size > 0) buf[r < size - 1 ? r : size - 1] = 0;
+  if (r >= size) { if (vp_style == 1) return (int) size - 1; if (vp_style == 2) { errno = 0; return -1; } }
+  return (int) r;
+}
+#endif
+VP_HARNESS(h_hwloc_snprintf_contract)
+{
+  char *buf = malloc(17);
+  VP_NONNULL(buf);
+  size_t size = (size_t) vp_in_range(0, 16);
+  unsigned need = (unsigned) vp_in_range(0, 20), style = (unsigned) vp_in_range(0, 2);
+  unsigned char canary = vp_in_byte();
+  for (unsigned i = 0; i < 17; i++) buf[i] = (char) canary;
+#ifdef VP_CBMC
+  vp_need = need; vp_style = style;
+  int r = hwloc_snprintf(size ? buf : NULL, size, "x");
+  VP_CHECK(r == (int) need, "hwloc_snprintf returns the length the untruncated text needs, whatever the libc style");
+  for (unsigned i = 0; i < 17; i++) if (i >= size) VP_CHECK(buf[i] == (char) canary, "hwloc_snprintf never writes at or beyond size");
+  if (size) {
+    size_t end = need < size - 1 ? need : size - 1;
+    VP_CHECK(buf[end] == 0, "hwloc_snprintf NUL-terminates");
+    for (unsigned i = 0; i < 16; i++) if (i < end) VP_CHECK(buf[i] == (char) ('a' + i), "hwloc_snprintf: truncated text is a prefix");
+  }
+  VP_WITNESS_IF(style == 1 && need == size - 1 && size > 2, "exact fit under a legacy libc: retry path");
+  VP_WITNESS_IF(style == 2 && need > size && size > 1, "legacy -1 style truncation");
+#else
+  /* native replay: glibc is conforming; run the conforming case with a real format */
+  int r = hwloc_snprintf(size ? buf : NULL, size, "%.*s", (int) need, "abcdefghijklmnopqrstuvwxyz");
+  VP_CHECK(r == (int) need, "hwloc_snprintf returns the needed length");
+  for (unsigned i = 0; i < 17; i++) if (i >= size) VP_CHECK(buf[i] == (char) canary, "hwloc_snprintf never writes at or beyond size");
+  (void) style;
+#endif
 }
 #else
 
